@@ -161,17 +161,22 @@ def clone_user_dir(src, dest):
 
 
 def build_harness(flavour):
-    b = vlib.librime_build(flavour)
+    """harness executable for the given librime flavour (built under a lock, replaced
+    atomically: other runs may be executing the previous one)"""
     import hashlib
+    b = vlib.librime_build(flavour)
     exe = os.path.join(vlib.WORK, "bin", "udbl-%s-%s" % (flavour, hashlib.sha256(b.encode()).hexdigest()[:8]))
     src = os.path.join(HARNESS, "udbl.cc")
     stamp = exe + ".stamp"
     key = "%s:%d:%d" % (b, os.stat(src).st_mtime_ns, os.stat(os.path.join(b, "lib", "librime.so")).st_mtime_ns)
-    if os.path.exists(exe) and os.path.exists(stamp) and open(stamp).read() == key:
-        return exe
-    vlib.cxx_build(exe, [src], flags="-I%s/src" % b,
-                   libs="-L%s/lib -lrime -lglog -Wl,-rpath,%s/lib" % (b, b), san=(flavour == "asan"))
-    open(stamp, "w").write(key)
+    with vlib.Lock(exe + ".lock"):
+        if os.path.exists(exe) and os.path.exists(stamp) and open(stamp).read() == key:
+            return exe
+        tmp = exe + ".tmp%d" % os.getpid()
+        vlib.cxx_build(tmp, [src], flags="-I%s/src" % b,
+                       libs="-L%s/lib -lrime -lglog -Wl,-rpath,%s/lib" % (b, b), san=(flavour == "asan"))
+        os.replace(tmp, exe)
+        open(stamp, "w").write(key)
     return exe
 
 
@@ -473,7 +478,10 @@ def gen_history(rnd, schema, steps, two_sessions=False, lookups=False):
                 note("backspace-after-wait")
             else:
                 note("backspace-at-once")
-            L.append("K %d {BackSpace}" % sid)
+            key = rnd.choice(["{BackSpace}"] * 7 + ["{space}", "{Return}", "{Control+x}", "{Shift+BackSpace}"])
+            if key != "{BackSpace}":
+                note("other-unhandled-key")
+            L.append("K %d %s" % (sid, key))
         elif r < 0.90:
             L += ["K %d %s" % (sid, inp), "X %d %d" % (sid, rnd.randrange(4)), "R %d" % sid]
             note("delete")
@@ -492,9 +500,12 @@ def build_killpoint():
     src = os.path.join(HARNESS, "killpoint.c")
     out = os.path.join(vlib.WORK, "bin", "udbl-killpoint.so")
     os.makedirs(os.path.dirname(out), exist_ok=True)
-    if os.path.exists(out) and os.stat(out).st_mtime_ns > os.stat(src).st_mtime_ns:
-        return out
-    vlib.sh("gcc -shared -fPIC -O1 -o %s %s -ldl" % (out, src), check=True, timeout=120)
+    with vlib.Lock(out + ".lock"):
+        if os.path.exists(out) and os.stat(out).st_mtime_ns > os.stat(src).st_mtime_ns:
+            return out
+        tmp = out + ".tmp%d" % os.getpid()
+        vlib.sh("gcc -shared -fPIC -O1 -o %s %s -ldl" % (tmp, src), check=True, timeout=120)
+        os.replace(tmp, out)
     return out
 
 
